@@ -26,6 +26,12 @@ WHAT = {
     "more-general": "the reported type is strictly more general than the principal type (it is not a type of the term)",
     "incomparable": "the reported type is neither an instance nor a generalisation of the principal type",
 }
+# Names used in violation keys.  The two standing deviations of gluon (row tails left unrelated,
+# record fields generalised in place and compared after floating the quantifiers out) only ever make
+# the reported type MORE GENERAL than the principal one; a reported type that is an instance of the
+# principal type or incomparable with it is a wrong type whatever the term contains, and gets a key
+# of its own so that it can never fall under a known finding about those deviations.
+KEY_NAME = {"not-principal": "wrong-type-instance", "incomparable": "wrong-type-incomparable"}
 MAX_PER_GROUP = 3
 
 
@@ -132,7 +138,7 @@ def report(ctx, r):
         ds.sort(key=lambda d: (len(d["source"]), d["source"]))
         for d in ds[:MAX_PER_GROUP]:
             ctx.violation(
-                "%s:%s:%s" % (v, cause, d["source"]),
+                "%s:%s:%s" % (KEY_NAME.get(v, v), cause, d["source"]),
                 "`%s`: %s (model: %s; gluon: %s)" % (d["source"], WHAT.get(v, "model and implementation disagree and the triage could not decide (%s)" % v), d["model"], d["impl"] + " [" + d["raw"][:160] + "]"),
                 case={"source": d["source"], "term": d["term"]},
                 expected=d["model"],
